@@ -9,6 +9,7 @@ package strategy
 //@   inv[C01,C02] counts: this.inFlight >= 0 && this.limit >= 1
 
 //@ func (*PreciseStrategy).TryAcquire
+//@   refines[C01,C02] core.Strategy.TryAcquire with busy = int(s.inFlight); limit = int(s.limit)
 //@   maintains[C01,C02] s
 //@   ensures[C01] gate_iff: ok <==> old(s.inFlight) < old(s.limit)
 //@   ensures[C01,C02] grant: ok ==> s.inFlight == old(s.inFlight) + 1 && s.inFlight <= s.limit
@@ -32,7 +33,8 @@ package strategy
 //@   owns[C17]
 
 //@ func (*PreciseStrategy).SetLimit
-//@   requires fits: limit <= MaxInt32
+//@   refines[C01,C05] core.Strategy.SetLimit with busy = int(s.inFlight); limit = int(s.limit)
+//@   requires fits_no_overflow: limit <= MaxInt32
 //@   maintains[C01,C05] s
 //@   ensures[C01,C05] floor: s.limit == max(1, limit)
 //@   ensures[C01,C02] revokes_nothing: s.inFlight == old(s.inFlight)
@@ -62,6 +64,7 @@ package strategy
 //@   inv[C01,C02] counts: *this.inFlight >= 0 && *this.limit >= 1
 
 //@ func (*SimpleStrategy).TryAcquire
+//@   refines[C01,C02] core.Strategy.TryAcquire with busy = int(*s.inFlight); limit = int(*s.limit)
 //@   maintains[C01,C02] s
 //@   bind seen = call 1 sync/atomic.LoadInt32
 //@   bind lim = call 2 sync/atomic.LoadInt32
@@ -92,7 +95,8 @@ package strategy
 //@   assigns *ref
 
 //@ func (*SimpleStrategy).SetLimit
-//@   requires fits: limit <= MaxInt32
+//@   refines[C01,C05] core.Strategy.SetLimit with busy = int(*s.inFlight); limit = int(*s.limit)
+//@   requires fits_no_overflow: limit <= MaxInt32
 //@   maintains[C01,C05] s
 //@   ensures[C01,C05] floor: *s.limit == max(1, limit)
 //@   ensures[C01,C02] revokes_nothing: *s.inFlight == old(*s.inFlight)
@@ -179,8 +183,9 @@ package strategy
 //@ define lookupBin(s *strategy.LookupPartitionStrategy, key string) *strategy.LookupPartition = ite(has(s.partitions, key), s.partitions[key], s.unknownPartition)
 
 //@ func (*LookupPartitionStrategy).TryAcquire
+//@   refines[C02,C03] core.Strategy.TryAcquire with busy = int(s.busy); limit = int(s.limit)
 //@   maintains[C03] s
-//@   requires room: s.busy < MaxInt32 && forall p *strategy.LookupPartition :: p.busy < MaxInt32
+//@   requires room_no_overflow: s.busy < MaxInt32 && forall p *strategy.LookupPartition :: p.busy < MaxInt32
 //@   bind key string = call 1 funcvalue:strategy.LookupPartitionStrategy.lookupFunc
 //@   ensures[C03] admit_iff: ok <==> (old(s.busy) < old(s.limit) || old(lookupBin(s, key).busy) < old(lookupBin(s, key).limit))
 //@   ensures[C03,C02] charge: ok ==> s.busy == old(s.busy) + 1 && lookupBin(s, key).busy == old(lookupBin(s, key).busy) + 1
@@ -207,7 +212,8 @@ package strategy
 //@   owns[C17]
 
 //@ func (*LookupPartitionStrategy).SetLimit
-//@   requires fits: limit <= MaxInt32
+//@   refines[C03,C05] core.Strategy.SetLimit with busy = int(s.busy); limit = int(s.limit)
+//@   requires fits_no_overflow: limit <= MaxInt32
 //@   maintains[C03,C05] s
 //@   ensures[C03,C05] floor: s.limit == int32(max(1, limit))
 //@   ensures[C03,C02] busy_unchanged: s.busy == old(s.busy) && forall q *strategy.LookupPartition :: q.busy == old(q.busy)
@@ -326,8 +332,9 @@ package strategy
 //@ define firstMatch(s *strategy.PredicatePartitionStrategy, ctx context.Context, i int) bool = 0 <= i && i < len(s.partitions) && matches(s.partitions[i], ctx) && (forall j int :: 0 <= j && j < i ==> !matches(s.partitions[j], ctx))
 
 //@ func (*PredicatePartitionStrategy).TryAcquire
+//@   refines[C02,C03] core.Strategy.TryAcquire with busy = int(s.busy); limit = int(s.limit)
 //@   maintains[C03] s
-//@   requires room: s.busy < MaxInt32 && forall p *strategy.PredicatePartition :: p.busy < MaxInt32
+//@   requires room_no_overflow: s.busy < MaxInt32 && forall p *strategy.PredicatePartition :: p.busy < MaxInt32
 //@   loop 1 invariant[C03] scanned: -1 <= #rangeindex && #rangeindex < len(s.partitions) && (forall j int :: 0 <= j && j <= #rangeindex ==> !matches(s.partitions[j], ctx))
 //@   ensures[C03] no_match_refused: (forall i int :: 0 <= i && i < len(s.partitions) ==> !matches(s.partitions[i], ctx)) ==> !ret1 && s.busy == old(s.busy) && (forall q *strategy.PredicatePartition :: q.busy == old(q.busy))
 //@   ensures[C03] admit_iff: forall i int :: firstMatch(s, ctx, i) ==> (ret1 <==> (old(s.busy) < old(s.limit) || old(s.partitions[i].busy) < old(s.partitions[i].limit)))
@@ -353,7 +360,8 @@ package strategy
 //@   owns[C17]
 
 //@ func (*PredicatePartitionStrategy).SetLimit
-//@   requires fits: limit <= MaxInt32
+//@   refines[C03,C05] core.Strategy.SetLimit with busy = int(s.busy); limit = int(s.limit)
+//@   requires fits_no_overflow: limit <= MaxInt32
 //@   maintains[C03,C05] s
 //@   ensures[C03,C05] floor: s.limit == int32(max(1, limit))
 //@   ensures[C03,C02] busy_unchanged: s.busy == old(s.busy) && forall q *strategy.PredicatePartition :: q.busy == old(q.busy)
@@ -382,20 +390,20 @@ package strategy
 //@   owns[C17]
 
 //@ func NewPreciseStrategy
-//@   requires fits: limit <= MaxInt32
+//@   requires fits_no_overflow: limit <= MaxInt32
 //@   ensures[C01,C19] fresh_gate: fresh(result) && result.limit == max(1, limit) && result.inFlight == 0
 //@   establishes[C01] result
 //@ func NewPreciseStrategyWithMetricRegistry
-//@   requires fits: limit <= MaxInt32 && registry != nil
+//@   requires fits_no_overflow: limit <= MaxInt32 && registry != nil
 //@   ensures[C01,C19] fresh_gate: fresh(result) && result.limit == max(1, limit) && result.inFlight == 0 && result.metricListener != nil
 //@   ensures[C20] limit_gauge: ncalls("core.MetricRegistry.RegisterGauge") == 1 && callarg("core.MetricRegistry.RegisterGauge", 0, 0) == "limit" && isfunc(*captured(callarg("core.MetricRegistry.RegisterGauge", 0, 1), "core.NewIntMetricSupplierWrapper$1", 0), "(*strategy.PreciseStrategy).GetLimit$bound") && captured(*captured(callarg("core.MetricRegistry.RegisterGauge", 0, 1), "core.NewIntMetricSupplierWrapper$1", 0), "(*strategy.PreciseStrategy).GetLimit$bound", 0) == result
 //@   establishes[C01] result
 //@ func NewSimpleStrategy
-//@   requires fits: limit <= MaxInt32
+//@   requires fits_no_overflow: limit <= MaxInt32
 //@   ensures[C01] fresh_gate: fresh(result) && *result.limit == max(1, limit) && *result.inFlight == 0
 //@   establishes[C01] result
 //@ func NewSimpleStrategyWithMetricRegistry
-//@   requires fits: limit <= MaxInt32 && registry != nil
+//@   requires fits_no_overflow: limit <= MaxInt32 && registry != nil
 //@   ensures[C01] fresh_gate: fresh(result) && *result.limit == max(1, limit) && *result.inFlight == 0 && result.metricListener != nil
 //@   ensures[C20] limit_gauge: ncalls("core.MetricRegistry.RegisterGauge") == 1 && callarg("core.MetricRegistry.RegisterGauge", 0, 0) == "limit" && isfunc(*captured(callarg("core.MetricRegistry.RegisterGauge", 0, 1), "core.NewIntMetricSupplierWrapper$1", 0), "(*strategy.SimpleStrategy).GetLimit$bound") && captured(*captured(callarg("core.MetricRegistry.RegisterGauge", 0, 1), "core.NewIntMetricSupplierWrapper$1", 0), "(*strategy.SimpleStrategy).GetLimit$bound", 0) == result
 //@   establishes[C01] result
